@@ -135,13 +135,28 @@ def run_session(prop, run_seed, profile, monitors, ops=None, known=None, own_tre
                 "outcome": [outcome[0], outcome[1]] if outcome[0] == "exc" else ["ret", outcome[1]],
                 "state": seeds.H("snap", jdump(post).replace(env.sandbox, "$SANDBOX"))
                 if post is not None else "corrupt"}))
+            ctx = Ctx(op=op, args=args, labels=labels, outcome=outcome, pre=pre, post=post,
+                      U=U, env=env, mem=mem, step=step)
             if guard is not None and not own_tree:
-                # C03's to report, not ours: abandon, the steps before are already judged
+                # A corrupt tree is C03's to report, not ours: abandon, the steps before are
+                # already judged.  Before that, a monitor may look at the op that caused it with
+                # the part of its oracle that is safe on a broken tree (identity checks only):
+                # a copy that shares objects with its original breaks the tree *and* C11.
+                for mon in monitors:
+                    on_corrupt = getattr(mon, "on_corrupt", None)
+                    v = on_corrupt(ctx) if on_corrupt is not None else None
+                    if v:
+                        res.violation = {
+                            "monitor": v[0], "message": v[1], "step": step, "op": op,
+                            "labels": labels, "outcome": list(outcome[:2]) if outcome[0] == "exc"
+                            else ["ret"], "signature": signature(v[0], op["op"], labels)}
+                        res.log.append(jdump({"step": step, "violation": res.violation["signature"]}))
+                        break
+                if res.violation:
+                    break
                 res.stats["abandoned_corrupt_universe"] += 1
                 res.log.append(jdump({"step": step, "abandoned": guard[0]}))
                 break
-            ctx = Ctx(op=op, args=args, labels=labels, outcome=outcome, pre=pre, post=post,
-                      U=U, env=env, mem=mem, step=step)
             for mon in monitors:
                 if guard is not None and getattr(mon, "needs_tree", False):
                     continue
